@@ -209,6 +209,9 @@ SHARED = [("C01", "lwl_post", ["C01.lwl.post"]), ("C01", "ll_post", ["C01.ll.pos
           # the ISV/JFA equivariance lemmas are stated over the leaf contracts: the code must meet them
           ("C07", "fn_x_all", ["C07.fn_x"]), ("C07", "fn_z_all", ["C07.fn_z"]), ("C07", "leaf_compute_fn_y_i", ["C07.fn_y"]),
           ("C07", "prec_all", ["C07.prec.x", "C07.prec.y", "C07.prec.z", "C07.uprod", "C07.vprod"]),
+          # the stopping rules are relative (scale- and origin-free): the loops stop by their stated rule and by nothing else
+          ("C06", "loop_thr_max", ["C06.loop.body[thr=set,max=set]", "C06.loop.break-post[thr=set,max=set]", "C06.loop.preserve[thr=set,max=set]"]),
+          ("C03", "loop_thr_max", ["C03.loop.body[thr=set,max=set]", "C03.loop.break-post[thr=set,max=set]", "C03.loop.preserve[thr=set,max=set]"]),
           ("C09", "msteps", ["C09.U.mstep", "C09.V.mstep", "C09.D.mstep"]), ("C09", "esteps", ["C09.estep.V", "C09.estep.U", "C09.estep.D"]), ("C09", "finalizers", ["C09.finalize.V", "C09.finalize.U"])]
 REPLAY = [("C03", "gmm_repro.py", "ml_mstep", {}), ("C05", "gmm_repro.py", "map_mstep", {}), ("C07", "fa_repro.py", "phases", {}), ("C09", "fa_repro.py", "phases", {}), ("C15.lwl", "gmm_repro.py", "affine", {}), ("C15.estep", "gmm_repro.py", "affine", {}), ("C15.ml", "gmm_repro.py", "affine", {}), ("C15.fa", "fa_repro.py", "affine", {}), ("C15.map", "gmm_repro.py", "map_mstep", {}), ("C15", "gmm_repro.py", "affine", {})]
 TRUSTED = ["rotation invariance of the Euclidean norm (k-means under rotations)", "argmin_k f(k) = argmin_k s^2 f(k) for s != 0",
